@@ -38,7 +38,7 @@ ASSUMPTIONS = [
 SIGNATURES = {}
 
 FEAT = gen.Feat(items=True, uncached=True, uncached_p=2, allow_none=True, max_top=2, max_child=1, max_cells=4, max_rank=5, depth=2, tick=True,
-                shadow=False, objrefs=False)
+                shadow=False, objrefs=False, item_reads_cells=True)
 
 
 def plan(tier):
@@ -64,7 +64,7 @@ def cases(draw, dag=False):
             exp = R.evaluate(G, tup(q[1]), q[2], tup(q[3]), q[4], budget=20000)
             if exp[0] == "ok":
                 top, _ = elem_of(G, tup(q[1]), q[2], tup(q[3]), q[4])
-                ensure_spaces(gsim, G, tup(q[1]))
+                create_spaces(gsim, G, tup(q[1]))
                 gsim.simulate(exp[2], top)
         except Exception:
             pass
@@ -76,6 +76,18 @@ def cases(draw, dag=False):
             emit_eval(q)
     for _ in range(draw(st.integers(4, 14))):
         k = draw(st.integers(0, 13))
+        if not dag and k in (3, 11):
+            # an element that the parameter formula of a live instance was computed from gets a value from the user
+            srcs = sorted({c for e in gsim.held if e[1] is None for c in gsim.pred.get(e, ())
+                           if c[1] is not None and c not in gsim.inputs and all(isinstance(x, str) for x in c[0])
+                           and None not in c[2]}, key=repr)
+            if srcs:
+                c = draw(st.sampled_from(srcs))
+                op = ["set_value", gen._jsid(c[0]), c[1], list(c[2]), draw(st.integers(300, 340))]
+                hist.append(op)
+                apply_ref(G, op)
+                gsim.assign(c, op[4])
+                continue
         if k == 13:
             # a held element nothing depends on, whose formula reads a reference through an attribute path, is
             # overwritten by the user; then that reference changes: the assigned value must stay
@@ -307,8 +319,7 @@ def run_case(case):
                 return out.fail("value", "%r: modelx %r, reference %r" % (op, got, exp[:2]), i)
             trace = exp[2]
             top, _ = elem_of(rm, sid, op[2], tup(op[3]), op[4])
-            ensure_spaces(sim, rm, sid)
-            pred = sim.simulate(trace, top)
+            pred = create_spaces(sim, rm, sid) + sim.simulate(trace, top)
             if ticks != pred:
                 return out.fail("execution-log", "%r executed %r, expected %r" % (op, ticks, pred), i)
             f = compare_held(real, sim, rm, "after evaluation %r" % (op,))
@@ -367,14 +378,36 @@ def run_case(case):
         ticks = take_ticks()
         if res[0] != "ok":
             if recalc and k == "set_value":
-                # the immediate recalculation of a dependent failed (e.g. a None flowed into it):
-                # failed evaluations are C05's business
-                out.discard = True
-                return out
+                # the immediate recalculation of a dependent failed (e.g. a None flowed into it): failed
+                # evaluations are C05's business - when the reference, too, fails that way for some dependent
+                import copy
+                rm2 = copy.deepcopy(rm)
+                apply_ref(rm2, op)
+                kinds = set()
+                for e in sim.dependents(target):
+                    try:
+                        if e[1] is None:
+                            tr = R.Evaluator(rm2)
+                            tr.item_ctx(tr.ctx_of(e[0]), e[2])
+                        else:
+                            ex = R.evaluate(rm2, e[0], e[1], e[2])
+                            if ex[0] != "ok":
+                                kinds.add(ex[1])
+                    except R.Budget:
+                        kinds.add(res[1])
+                    except Exception as exc:
+                        kinds.add(type(exc).__name__)
+                if res[1] in kinds:
+                    out.discard = True
+                    return out
+                return out.fail("recalc-raised", "%r with recalc on raised %s; recomputing the dependents fails with %r "
+                                "in the reference" % (op, res[1], sorted(kinds)), i)
             return out.fail("edit-raised", "%r -> %r" % (op, res), i)
         if k in ("set_value", "clear_at", "clear", "clear_all"):
             # addressing a cells inside an ItemSpace creates the instance (an evaluation of the space element)
-            ensure_spaces(sim, rm, tup(op[1]))
+            created = create_spaces(sim, rm, tup(op[1]))
+        else:
+            created = []
         if k == "set_value":
             gone = sim.assign(target, op[4])
             apply_ref(rm, op)
@@ -435,6 +468,8 @@ def run_case(case):
             # resynchronise the picture with what was recomputed (order is unspecified)
             resync(sim, rm, after)
             continue
+        if ticks[:len(created)] == created:
+            ticks = ticks[len(created):]        # (what the parameter formulas ran to create the addressed instance)
         if ticks and not recalc:
             return out.fail("edit-executed-formulas", "%r ran formulas %r although recalc is off" % (op, ticks), i)
         f = compare_held(real, sim, rm, "after %r" % (op,), before)
@@ -470,6 +505,25 @@ def ensure_spaces(sim, rm, sid):
     for j, part in enumerate(sid):
         if not isinstance(part, str):
             sim.held.add((tuple(sid[:j]), None, tuple(part)))
+
+
+def create_spaces(sim, rm, sid):
+    """like ensure_spaces, with what the parameter formulas run: returns the predicted execution log of creating
+    the instances on the way to sid that do not exist yet (a parameter formula may call cells)"""
+    log = []
+    for j, part in enumerate(sid):
+        if isinstance(part, str):
+            continue
+        e = (tuple(sid[:j]), None, tuple(part))
+        if e not in sim.held:
+            try:
+                tr = R.Evaluator(rm)
+                tr.item_ctx(tr.ctx_of(tuple(sid[:j])), tuple(part))
+                log += sim.simulate(tr.trace, e)
+            except Exception:
+                pass
+        sim.held.add(e)
+    return log
 
 
 def compare_held(real, sim, rm, when, before=None):
@@ -545,6 +599,16 @@ def resync(sim, rm, after):
         if e[1] is None:
             sim.held.add(e)
             continue
+    for e in sorted((x for x in after if x[1] is None), key=lambda x: (len(x[0]), repr(x))):
+        # what the instance was created from (its parameter formula may have called cells)
+        try:
+            tr = R.Evaluator(rm)
+            tr.item_ctx(tr.ctx_of(e[0]), e[2])
+            sim.held.discard(e)
+            sim.simulate(tr.trace, e)
+        except Exception:
+            pass
+        sim.held.add(e)
     for e in sorted(after, key=repr):
         if e in sim.inputs or e[1] is None:
             continue
